@@ -40,11 +40,48 @@ fn suffixes(b: &[u8], long: bool) -> Vec<Vec<u8>> {
 /// then satisfiable); off during the string sweeps (millions of inputs)
 static LONG_ON_REJECT: std::sync::atomic::AtomicBool = std::sync::atomic::AtomicBool::new(true);
 
+/// The declared extent of the structure at the start of `b` for the parsers whose structure carries its total length
+/// up front (records, handshake messages, single extensions, SCT entries and lists): header size + length field.
+/// "Only the declared bytes matter" can then be stated without any other knowledge of the format.
+fn envelope(name: &str, b: &[u8]) -> Option<usize> {
+    let be = |r: std::ops::Range<usize>| -> Option<usize> { b.get(r).map(|x| x.iter().fold(0usize, |a, y| (a << 8) | *y as usize)) };
+    match name {
+        "parse_tls_plaintext" | "parse_tls_encrypted" | "parse_tls_raw_record" => be(3..5).map(|l| 5 + l),
+        "parse_dtls_plaintext_record" => be(11..13).map(|l| 13 + l),
+        "parse_tls_message_handshake" => be(1..4).map(|l| 4 + l),
+        "parse_dtls_message_handshake" => be(9..12).map(|l| 12 + l),
+        "parse_ct_signed_certificate_timestamp" | "parse_ct_signed_certificate_timestamp_list" => be(0..2).map(|l| 2 + l),
+        "parse_tls_extension_sni_hostname" | "parse_tls_extensions" => None,
+        n if n.starts_with("parse_tls_extension") || n == "parse_tls_client_hello_extension" || n == "parse_tls_server_hello_extension" => be(2..4).map(|l| 4 + l),
+        _ => None,
+    }
+}
+
 /// L1 / L2 on one (parser, input); `g` = f(b)
 fn locality(t: &Target, b: &[u8], g: &Got, _r: &Ref, sink: &mut Sink) {
     let mut found: Vec<String> = Vec::new();
     let mut extra_evals = 0u64;
     let mut viol = |what: String| found.push(what);
+    // the declared extent is all that matters: with all of it present the parser has an answer, and it is the answer it
+    // gives on exactly those bytes
+    if let Some(decl) = envelope(t.name, b) {
+        if b.len() >= decl {
+            let exact = (t.run)(&b[..decl]);
+            extra_evals += 1;
+            match (g, &exact) {
+                (Got::Panic(_), _) | (_, Got::Panic(_)) => {}
+                (Got::Ok(v, c), Got::Ok(v2, c2)) => {
+                    if *c > decl {
+                        viol(format!("locality: {} bytes are consumed although the structure declares {}", c, decl));
+                    } else if v != v2 || c != c2 {
+                        viol(format!("locality: on the {} declared bytes alone the result is {:.200}, with the bytes that follow {:.200}", decl, format!("{:?}", exact), format!("{:?}", g)));
+                    }
+                }
+                (Got::Ok(..), _) | (_, Got::Ok(..)) => viol(format!("locality: on the {} declared bytes alone the outcome is {:.120}, with the bytes that follow {:.120}", decl, format!("{:?}", exact), format!("{:?}", g))),
+                _ => {}
+            }
+        }
+    }
     match g {
         Got::Panic(p) => viol(format!("panic: {}", p)),
         Got::BadRemainder(m) => viol(format!("remainder is not a suffix of the input: {}", m)),
